@@ -37,6 +37,7 @@ type SecureAead struct {
 	secret []byte
 	aead   cipher.AEAD
 	nonce  []byte
+	remain []byte // decrypted bytes of the last frame which Read has not delivered yet
 }
 
 const (
@@ -117,26 +118,29 @@ func (sa *SecureAead) increaseNonce() {
 	}
 }
 func (sa *SecureAead) Read(b []byte) (n int, err error) {
-	frame := make([]byte, secureConnFrameSize)
-	_, err = io.ReadFull(sa.conn, frame[:secureConnHeaderSize])
-	if err != nil {
-		return
+	if len(sa.remain) > 0 {
+		n = copy(b, sa.remain)
+		sa.remain = sa.remain[n:]
+		return n, nil
 	}
-	n = int(binary.BigEndian.Uint16(frame))
-	sealed := make([]byte, n+sa.aead.Overhead())
-	_, err = io.ReadFull(sa.conn, sealed)
-	if err != nil {
-		return
+	frame := make([]byte, secureConnFrameSize)
+	if _, err = io.ReadFull(sa.conn, frame[:secureConnHeaderSize]); err != nil {
+		return 0, err
+	}
+	sealed := make([]byte, int(binary.BigEndian.Uint16(frame))+sa.aead.Overhead())
+	if _, err = io.ReadFull(sa.conn, sealed); err != nil {
+		return 0, err
 	}
 
-	_, err = sa.aead.Open(frame[:0], sa.nonce, sealed[:], nil)
+	plain, err := sa.aead.Open(frame[:0], sa.nonce, sealed, nil)
 	if err != nil {
-		return
+		return 0, err
 	}
 	sa.increaseNonce()
 
-	copy(b, frame[:n])
-	return
+	n = copy(b, plain)
+	sa.remain = plain[n:]
+	return n, nil
 }
 
 func (sa *SecureAead) Write(b []byte) (n int, err error) {
